@@ -44,6 +44,7 @@ inductive Atom
   | everything
   | require (n : Nat)
   | utf8Range (found : Bool) (lo hi : Nat)          -- `utf8::range` / `utf8::not_range` (code points)
+  | repOne (lo hi : Nat) (c : UInt8)               -- contrib `rep_one_min_max< lo, hi, c >`
   | maxDigits (mx : Nat)                            -- `integer::maximum_rule< Unsigned, mx >`
   deriving DecidableEq, Repr, Inhabited
 
